@@ -2629,15 +2629,18 @@ void updateBaseUnitCount(const ModelPtr &model,
                 mult = std::log10(expMult);
                 if (!isStandardUnitName(ref)) {
                     unitsOnPath.push_back(uName);
-                    updateBaseUnitCount(model, unitMap, multiplier, ref, exp * uExp, logMult + mult * uExp + convertPrefixToInt(pre) * uExp, direction, unitsOnPath);
+                    updateBaseUnitCount(model, unitMap, multiplier, ref, exp * uExp, mult * uExp + convertPrefixToInt(pre) * uExp, direction, unitsOnPath);
                     unitsOnPath.pop_back();
                 } else {
                     for (const auto &iter : standardUnitsList.at(ref)) {
                         unitMap.at(iter.first) += direction * (iter.second * exp * uExp);
                     }
-                    multiplier += direction * (logMult + (standardMultiplierList.at(ref) + mult + convertPrefixToInt(pre)) * exp);
+                    multiplier += direction * ((standardMultiplierList.at(ref) + mult + convertPrefixToInt(pre)) * exp);
                 }
             }
+            // The scale that comes with the reference to these units counts
+            // once, however many children the units have.
+            multiplier += direction * logMult;
         }
     } else if (isStandardUnitName(uName)) {
         for (const auto &iter : standardUnitsList.at(uName)) {
